@@ -233,6 +233,14 @@ class bptk():
             state["lock"] = False
         self.session_state = state
 
+        # the scenarios of a restored session carry the settings the session was begun with
+        settings = state.get("settings") or {}
+        for _, manager in self.scenario_manager_factory.scenario_managers.items():
+            if manager.name in state.get("scenario_managers", []) and manager.name in settings:
+                for scenario, scenario_object in manager.scenarios.items():
+                    if scenario in state.get("scenarios", []) and scenario in settings[manager.name] and hasattr(scenario_object, "configure_settings"):
+                        scenario_object.configure_settings(settings[manager.name][scenario])
+
     def lock(self):
         if self.session_state is not None:
             self.session_state["lock"] = True
@@ -542,7 +550,8 @@ class bptk():
                     scenarios=[scenario for scenario in manager.scenarios.keys() if scenario in scenarios],
                     equations=equations,
                     scenario_manager=manager.name,
-                    settings = settings
+                    settings = settings,
+                    previous_steps = sorted(((float(previous_step), previous_settings) for previous_step, previous_settings in self.session_state["settings_log"].items()), key=lambda previous: previous[0])
                 )
 
                 if(flat):
